@@ -1,5 +1,56 @@
 """property -> deciding units / harnesses"""
+K_ANALYSIS = [
+    {'crate': 'p3-circuit', 'harness': 'c03_equal_keys_same_relation'},
+    {'crate': 'p3-circuit', 'harness': 'c03_equal_keys_reachable'},
+]
+K_CONTEXT = [
+    {'crate': 'p3-circuit', 'harness': 'c19_get_witness_contract', 'profile': 'debug'},
+    {'crate': 'p3-circuit', 'harness': 'c19_set_witness_contract', 'profile': 'debug'},
+    {'crate': 'p3-circuit', 'harness': 'c19_get_witness_contract', 'profile': 'release'},
+    {'crate': 'p3-circuit', 'harness': 'c19_set_witness_contract', 'profile': 'release'},
+]
 PROPS = {
-    'C02': {'units': ['opt'], 'kani': [], 'exclude': r'H_dup_out_unmentioned'},
-    'C03': {'units': ['opt'], 'kani': []},
+    'C02': {'units': ['opt'], 'kani': K_ANALYSIS + [{'crate': 'p3-circuit', 'harness': 'c02_allocator_monotone'}], 'exclude': r'H_dup_out_unmentioned'},
+    'C03': {'units': ['opt'], 'kani': K_ANALYSIS},
+    'C19': {'units': [], 'kani': K_CONTEXT},
 }
+
+TB_COMMON = ['p3 field types satisfy the field laws the lemmas name; machine field arithmetic treated as mathematical',
+             '64-bit usize']
+
+META = {
+    'C02': {
+        'technique': 'Verus contracts on extracted real functions (optimizer kernel) + Kani loop-free harnesses',
+        'text': 'Deductive proof, for every op list and every rewrite history, that the optimizer kernel preserves what each op denotes: '
+                'WitnessId::resolve returns the unique root of an acyclic rewrite map (termination proved), Op::apply_witness_rewrite maps every slot '
+                'of every op variant through it and touches nothing else, AluKey::{new,with_acc} identify two ALU ops only when their relations coincide '
+                '(lemma_same_key_same_relation over an abstract field), Deduplicator::run keeps the rewrite map acyclic and its kept ops on root slots. '
+                'Unit tests sample a handful of op lists; the loop invariants cover all of them.',
+        'note': 'Kernel only: expression-level folding/CSE (ExpressionBuilder), DSU lowering, MulAddFusion and the runner are NOT under contract yet. '
+                'Trusted: Verus/Z3/vstd, Kani/CBMC, the extractor and its logged rewrites (R1-R12), hashbrown==std HashMap, key model of derived Hash/Eq, '
+                'opaque executors, wf_op shape of lowered ops.',
+    },
+    'C03': {
+        'technique': 'Verus contracts on extracted real functions (Deduplicator) + Kani loop-free harness on AluKey',
+        'text': 'Deductive proof that ALU de-duplication never drops a relation: Deduplicator::run ensures all_covered(input ops, kept ops, final rewrite), and '
+                'theorem_dedup_no_relation_dropped turns that into: ANY assignment satisfying every kept op satisfies every input op read through the rewrite '
+                '(no reference to the honest runner). Proved under the named hypothesis H (duplicate out slot unmentioned), whose single call-site obligation '
+                'fails on the unchanged tree and is the recorded finding C03-alias; every other obligation is discharged.',
+        'note': 'Kernel: Deduplicator::{new,detect_duplicate,run}, AluKey::{new,with_acc}, WitnessId::resolve, Op::apply_witness_rewrite. MulAddFusion is NOT under '
+                'contract yet. Trusted base as C02; non-primitive rows denote an uninterpreted relation of the values on their slots.',
+    },
+    'C19': {
+        'technique': 'Kani loop-free harnesses inside the real crate, both build profiles (complete over u32 indices) ',
+        'text': 'Complete (loop-free, full-domain) proofs with CBMC that ExecutionContext::get_witness is Ok exactly for an in-range set slot and returns its value, '
+                'and that set_witness errs out of range, never overwrites a different value, and changes at most the addressed slot — checked on the code selected by '
+                'debug assertions ON and OFF, so the optimized profile cannot diverge (it did: F2, fixed).',
+        'note': 'Kernel: ExecutionContext::{get_witness,set_witness}. CircuitRunner::{set_public_inputs,set_private_inputs,set_private_data,run} not under contract yet. '
+                'Slice of 3 slots with symbolic contents and symbolic u32 index; BabyBear as the field instance. Trusted: Kani/CBMC, rustc cfg selection via -C debug-assertions.',
+    },
+}
+
+NOT_APPLICABLE = {
+    'C01': 'whole-verifier equivalence with the external native verifier (p3-uni-stark / p3-batch-stark): needs a relational spec of ~1.5 kLoC of dependency code across four generic traits; no per-function contract within reach expresses it. Its parts are decided under C05/C07/C08/C13/C14/C15/C20.',
+}
+for _p in ['C04', 'C05', 'C06', 'C07', 'C08', 'C09', 'C10', 'C11', 'C12', 'C13', 'C14', 'C15', 'C16', 'C17', 'C18', 'C20']:
+    NOT_APPLICABLE.setdefault(_p, 'not reached yet: kernel designed in DESIGN.md §5 but its contracts are not built; not claimed')
